@@ -29,8 +29,10 @@ func hx(b []byte) string {
 }
 
 // encode calls p.IEncode under panic capture. sig is non-empty if it panicked.
-func encode(p sms.PDU) (b []byte, err error, psig, pdetail string) {
+func encode(c *fw.Case, p sms.PDU) (b []byte, err error, psig, pdetail string) {
+	arm(c, 1<<16)
 	panicked, val, stack := fw.Try(func() { b, err = p.IEncode() })
+	disarm(c)
 	if panicked {
 		return nil, nil, fw.PanicSig(val, stack), fmt.Sprintf("panic: %v\n%s", val, stack)
 	}
@@ -38,12 +40,29 @@ func encode(p sms.PDU) (b []byte, err error, psig, pdetail string) {
 }
 
 // decode calls p.IDecode under panic capture.
-func decode(p sms.PDU, b []byte) (err error, psig, pdetail string) {
+func decode(c *fw.Case, p sms.PDU, b []byte) (err error, psig, pdetail string) {
+	arm(c, len(b))
 	panicked, val, stack := fw.Try(func() { err = p.IDecode(b) })
+	disarm(c)
 	if panicked {
 		return nil, fw.PanicSig(val, stack), fmt.Sprintf("panic: %v\n%s", val, stack)
 	}
 	return err, "", ""
+}
+
+// arm sets the logical step budget for the next library call: 64*(n+1024) ticks for an
+// n-octet input (DESIGN 3.3). A loop that makes no progress exhausts it and is unwound by a
+// StepBudgetExceeded panic raised inside the library frame that spins.
+func arm(c *fw.Case, n int) {
+	if c.W.Hooks != nil {
+		c.W.Hooks.SetBudget(64 * uint64(n+1024))
+	}
+}
+
+func disarm(c *fw.Case) {
+	if c.W.Hooks != nil {
+		c.W.Hooks.SetBudget(0)
+	}
 }
 
 func be32(b []byte) uint32 {
